@@ -22,7 +22,7 @@ func init() {
 			"(1) count before append — in d2graph.Object.Connect the new edge's index is computed (Edge.initIndex) on every path before the edge is appended to Graph.Edges, and in d2ir.Map.createEdge2 the edges are counted (GetEdges) before the new edge is appended to Map.Edges: counting after the append numbers from 1; Edge.Index of d2graph is written nowhere else on the compile path; " +
 			"(2) identity fields agree — the fields initIndex compares to decide that two connections are parallel are exactly the fields Edge.AbsID (with ArrowString) prints besides the index (Src, Dst, SrcArrow, DstArrow), each compared with the same field of the other edge: a field printed but not compared gives two connections the same ID, a field compared but not printed too; " +
 			"(3) EdgeID.Match compares the two indices with each other when both are given, and returns false from that comparison: otherwise an indexed reference hits every parallel connection; " +
-			"(4) in d2ir's _compileEdges the branch in which the lookup of a non-glob indexed ID found nothing reports an error before moving on; (5) every function of d2ir that resolves a connection ID (EdgeID.resolve: underscores and common container) uses only the resolved ID and map afterwards; (6) the result of DeleteEdge for a `null` written with an index is examined (a missing index is an error there too), and DeleteEdge renumbers the later parallel connections (open finding: it does not); (7) every function of d2ir that compares two paths element by element (EdgeID.Match and its helpers) also compares their lengths.",
+			"(4) in d2ir's _compileEdges the branch in which the lookup of a non-glob indexed ID found nothing reports an error before moving on; (5) every function of d2ir that resolves a connection ID (EdgeID.resolve: underscores and common container) uses only the resolved ID and map afterwards; (6) the result of DeleteEdge for a `null` written with an index is examined (a missing index is an error there too), and either DeleteEdge renumbers the later parallel connections or createEdge2 numbers one past the highest existing index (never the count); (7) every function of d2ir that compares two paths element by element (EdgeID.Match and its helpers) also compares their lengths.",
 		NotCovered: "that the numbers are consecutive for a given history (index arithmetic in d2ir.GetEdges / d2oracle renumbering); renumbering after deletes (C38); uniqueness of IDs across boards",
 		Technique:  "static analysis: must-precede on go/cfg, who-may-write, writer/reader field-set agreement, guarded error discipline",
 		Run:        runC11,
@@ -238,7 +238,7 @@ func runC11(c *core.Check) {
 			return true
 		})
 	}
-	c.Rule("C11.delete-renumbers", "deleting a connection lowers the index of the later parallel connections (indices are assigned by counting)")
+	c.Rule("C11.delete-renumbers", "deleting a connection never frees an index that a later declaration hands out again: DeleteEdge renumbers, or creation numbers one past the highest existing index")
 	if de := mustFunc(c, "d2ir", "Map", "DeleteEdge"); de != nil {
 		info := de.Pkg.TypesInfo
 		renumbers := false
@@ -258,7 +258,27 @@ func runC11(c *core.Check) {
 			return true
 		})
 		_ = info
-		c.Decide(renumbers, "C11.delete-renumbers", "d2ir.(*Map).DeleteEdge:renumber", de.Decl.Pos(), "later parallel connections are renumbered", "DeleteEdge removes the connection and leaves the indices of the later parallel connections as they are, while createEdge2 numbers a new connection with the count of the existing ones: after `a -> b; a -> b; (a -> b)[0]: null; a -> b` two connections carry index 1 and (a -> b)[1] refers to both")
+		// or: the index of a new connection is one past the highest existing index, not the count
+		if ce := mustFunc(c, "d2ir", "Map", "createEdge2"); ce != nil && !renumbers {
+			ast.Inspect(ce.Decl.Body, func(n ast.Node) bool {
+				as, ok := n.(*ast.AssignStmt)
+				if !ok || len(as.Lhs) != 1 || len(as.Rhs) != 1 {
+					return true
+				}
+				be, ok := ast.Unparen(as.Rhs[0]).(*ast.BinaryExpr)
+				if !ok || be.Op != token.ADD {
+					return true
+				}
+				if v, isC := intConst(ce.Pkg.TypesInfo, be.Y); !isC || v != 1 {
+					return true
+				}
+				if st, ok := ast.Unparen(be.X).(*ast.StarExpr); ok && strings.HasSuffix(exprStr(st.X), ".Index") {
+					renumbers = true
+				}
+				return true
+			})
+		}
+		c.Decide(renumbers, "C11.delete-renumbers", "d2ir.(*Map).DeleteEdge:renumber", de.Decl.Pos(), "later parallel connections are renumbered, or new connections are numbered one past the highest existing index", "DeleteEdge removes the connection and leaves the indices of the later parallel connections as they are, while createEdge2 numbers a new connection with the count of the existing ones: after `a -> b; a -> b; (a -> b)[0]: null; a -> b` two connections carry index 1 and (a -> b)[1] refers to both")
 	}
 
 	// (5) resolved supersedes: after eid.resolve(m) the resolved ID and map are the ones to use
